@@ -1,10 +1,25 @@
 import PyxModel.Sexp
+import PyxModel.Extract.XsdWire
 
-/-! driver commands of property C20 (stub: no command yet) -/
+/-! driver commands of property C20
+
+    (c20 <diagram> "component name" (<xedit>…))
+        -> (ok <xsd d comp> <xsd (applyXEdits es d) comp> <render (specEdits (xresolveAll d comp es) (xsdSpec d comp))>)
+         | (error no-component)
+-/
 namespace Pyx.Driver.C20
-open Pyx Pyx.Sexp
+open Pyx Pyx.Sexp Pyx.Extract Pyx.Extract.Wire
 
 def handle : List Sexp → Option Sexp
+  | [sym "c20", d, str name, es] =>
+    some (match dDiagram d, dList dXEdit es with
+      | some d, some es =>
+        match d.containers.find? (fun k => k.isComp && k.name == name) with
+        | some k =>
+          list [sym "ok", eXml (xsd d k.id), eXml (xsd (applyXEdits es d) k.id),
+                eXml (render (specEdits (xresolveAll d k.id es) (xsdSpec d k.id)))]
+        | none => list [sym "error", sym "no-component"]
+      | _, _ => list [sym "error", sym "bad-command"])
   | _ => none
 
 end Pyx.Driver.C20
